@@ -49,6 +49,13 @@ func (m *Machine) ensureClock() {
 		m.clock = mkInt(1893456000*1e9 + 123456789) // 2030-01-01
 		return
 	}
+	if m.opts != nil && m.opts["clock.fixed"] != 0 {
+		// (agentB) zz.SetOption("clock.fixed", 1): harnesses of properties that do not quantify over time start
+		// from a concrete instant (zz.Advance still moves it, possibly by a symbolic amount)
+		m.clock = mkInt(1893456000*1e9 + 123456789) // 2030-01-01
+		m.note("clock: time.Now() starts at a fixed concrete instant (2030-01-01T00:00:00.123456789Z), frozen while a fosite call runs; only zz.Advance moves it")
+		return
+	}
 	t := mkVar("i_clock0", SInt)
 	m.inputs = append(m.inputs, InputVar{Name: "clock0", Kind: "clock", Term: t})
 	m.assume(mkAnd(mkLe(mkInt(clockLo*1e9), t), mkLe(t, mkInt(clockHi*1e9))))
